@@ -1,6 +1,8 @@
 """Shared observation + normalisation for the ledger-based monitors (C01-C07, C09-C12)."""
 from __future__ import annotations
 
+import random
+import re
 from collections import defaultdict
 from fractions import Fraction
 
@@ -9,11 +11,47 @@ from ..util import cap_viols, fr, d as pdate, ZERO, DUST, TOL_10DP, TOL_FINE
 ALL_YEARS = {"range": [1899, 2101, "3000"]}
 
 
+_NUM = re.compile(r"^[0-9]+(\.[0-9]+)?$")
+_TK = re.compile(r"^[A-Za-z0-9]+$")
+_KINDS = {"BUY", "SELL", "DIVIDEND", "ACCUMULATION", "CAPRETURN", "SPLIT", "UNSPLIT"}
+FRONT_DOOR_ONE_IN = 4
+
+
+def front_door_text(txs):
+    """For one ledger in FRONT_DOOR_ONE_IN (chosen by its hash, so a replay makes the same choice) the text a user would
+    have written: the same lines as DSL in a random lexical style (keyword / currency / ticker case, spacing, comments,
+    blank lines, line endings, GBP omitted). The library then sees the ledger through its real parser instead of
+    through structs built by the harness, so the matching-engine monitors also cover parser -> engine hand-over.
+    Zero FEES/TAX clauses are never omitted (their currency may be the only use of a rate). None = use the structs."""
+    from ..util import sha
+    h = sha(txs)
+    if int(h[:6], 16) % FRONT_DOOR_ONE_IN:
+        return None
+    for t in txs:
+        if t.get("kind") not in _KINDS or not _TK.match(t.get("ticker", "")) or not re.match(r"^\d{4}-\d\d-\d\d$", t["date"]):
+            return None
+        for f in ("amount", "ratio"):
+            if f in t and (not _NUM.match(t[f]) or Fraction(t[f]) <= 0):
+                return None
+        for f in ("price", "fees", "total", "tax"):
+            if f in t and (not _NUM.match(t[f][0]) or not re.match(r"^[A-Za-z]{3}$", t[f][1])):
+                return None
+    from ..model.dsl import Style, render
+    rng = random.Random(h)
+    st = Style(rng)
+    st.omit_zero_clause_p = 0
+    return render(rng, txs, style=st)[0]
+
+
 def calc_case(txs=None, *, dsl=None, json_text=None, year=None, fx=None, exemptions=ALL_YEARS,
-              record=False, shuffle=None, outputs=None, cid=None):
+              record=False, shuffle=None, outputs=None, cid=None, front=False):
     c = {"op": "calc", "exemptions": exemptions}
     if txs is not None:
-        c["txs"] = txs
+        text = front_door_text(txs) if front else None
+        if text is not None:
+            c["dsl"] = text
+        else:
+            c["txs"] = txs
     if dsl is not None:
         c["dsl"] = dsl
     if json_text is not None:
@@ -131,7 +169,9 @@ def run_ledger_cases(cases, oracle, *, record=False, fx=None, sample_fn=None, ma
     samples = []
     reqs = []
     for txs, _ in cases:
-        c = calc_case(txs, record=record, fx=fx)
+        c = calc_case(txs, record=record, fx=fx, front=True)
+        if "dsl" in c:
+            cnt["ledgers_entered_as_DSL_text(random lexical style)"] += 1
         if case_extra:
             c.update(case_extra)
         reqs.append(c)
